@@ -40,3 +40,18 @@ Example C17_example :
   read_response {| budget := 1000 |} false (TStruct [TInt 4; TString false] [])
     [0; 0; 0; 12; 0; 0; 0; 7; 0]%N = Err EEof 7 0.
 Proof. vm_compute. reflexivity. Qed.
+
+(* ---- Conn half: the theorems live in Properties/C17conn.v (over Model/ConnOps.v) and are part
+        of this property's proof cone; the central one is restated here ---- *)
+From KV Require Model.Legacy Model.ConnOps Proofs.ConnOpsProofs Properties.C17conn.
+
+Theorem C17_conn_cut_every_operation : forall st a v off w k,
+  ConnOps.negotiated a v = true -> ConnOps.well_formed a v w ->
+  ConnOpsProofs.fits (Legacy.enc (ConnOps.resp_ty a v) w) -> ConnOps.closed st = false ->
+  (k < length (ConnOps.frame (wrap32 (ConnOps.corr st + 1)) (Legacy.enc (ConnOps.resp_ty a v) w)))%nat ->
+  exists e st2 s2,
+    ConnOps.conn_do st (ConnOps.mkOp a v off)
+      (firstn k (ConnOps.frame (wrap32 (ConnOps.corr st + 1)) (Legacy.enc (ConnOps.resp_ty a v) w)))
+      = (st2, ConnOps.RErr e, s2) /\ ConnOps.is_kafka e = false /\ ConnOps.closed st2 = true.
+Proof. exact C17conn.C17_conn_cut. Qed.
+Print Assumptions C17_conn_cut_every_operation.
